@@ -37,7 +37,8 @@ pub fn render(elems: &[(usize, usize)], ws: usize) -> String {
         0 => (",", ";"),
         1 => (", ", ";"),
         2 => (",", " ; "),
-        _ => (",\t", "\t;\t"),
+        3 => (",\t", "\t;\t"),
+        _ => (" , ", ";"),
     };
     elems
         .iter()
@@ -131,12 +132,12 @@ pub fn run_c16(run: &mut Run) -> Stats {
     let tier = run.tier;
     let kmax = tier.pick(3, 4);
     let prop = run.prop.clone();
-    run.rule = format!("absent header; every list of 0..{kmax} elements over distinct codings {{gzip, identity, *, br, deflate, x-gzip}} x every weight in {{none, 0, 0., 0.0, 0.000, 0.001, 0.5, 0.999, 1, 1., 1.000}} per element x 4 whitespace styles (',' / ', ' / ' ; ' / tabs), compared with an independent evaluator of RFC 7231 5.3.4 written from the statement (qualities as integers in thousandths, identity default = least-preferred acceptable); lists of up to 42 distinct codings with the deciding elements first and last; lists with a repeated coding, and every byte string of length <= n over {{g z * ; q = 0 1 . , SP 0xFF}} and every weight string of length <= 6 over {{0 1 9 .}}: no panic (and agreement wherever the evaluator has a verdict). non-trivial = distinct header values with a verdict from the evaluator");
+    run.rule = format!("absent header; every list of 0..{kmax} elements over distinct codings {{gzip, identity, *, br, deflate, x-gzip}} x every weight in {{none, 0, 0., 0.0, 0.000, 0.001, 0.5, 0.999, 1, 1., 1.000}} per element x 5 whitespace styles (',' / ', ' / ' ; ' / tabs / ' , '), compared with an independent evaluator of RFC 7231 5.3.4 written from the statement (qualities as integers in thousandths, identity default = least-preferred acceptable); lists of up to 42 distinct codings with the deciding elements first and last; lists with a repeated coding, and every byte string of length <= n over {{g z * ; q = 0 1 . , SP 0xFF}} and every weight string of length <= 6 over {{0 1 9 .}}: no panic (and agreement wherever the evaluator has a verdict). non-trivial = distinct header values with a verdict from the evaluator");
     let mut outer: Vec<Vec<usize>> = Vec::new();
     for k in 0..=kmax {
         outer.extend(lists_k(k));
     }
-    run.bounds = json!({"max_elements": kmax, "coding_lists": outer.len(), "weights": WEIGHTS.len(), "whitespace_styles": 4});
+    run.bounds = json!({"max_elements": kmax, "coding_lists": outer.len(), "weights": WEIGHTS.len(), "whitespace_styles": 5});
     let mut total = par_for(outer.len() as u64, threads(), |i, st| {
         let codings = &outer[i as usize];
         let k = codings.len();
@@ -151,13 +152,13 @@ pub fn run_c16(run: &mut Run) -> Stats {
                     (*c, w)
                 })
                 .collect();
-            for ws in 0..4 {
+            for ws in 0..5 {
                 if k == 0 && ws > 0 {
                     break;
                 }
                 let h = render(&elems, ws);
                 st.nontrivial(&h);
-                judge(Some(h.as_bytes()), st, (i << 32) | (wi << 2) | ws as u64, &prop);
+                judge(Some(h.as_bytes()), st, (i << 32) | (wi << 3) | ws as u64, &prop);
                 st.sample(1, || json!({"accept_encoding": h, "evaluator": prefers_gzip(Some(h.as_bytes()))}));
             }
         }
